@@ -403,18 +403,8 @@ def run_case(case: Dict[str, Any]) -> Tuple[Optional[str], Dict[str, Any]]:
 
 
 def classify(case: Dict[str, Any], obs: Dict[str, Any]) -> str:
-    """narrow classifiers for recorded defects; everything else is unclassified."""
-    if (
-        case["decorator"] == "SchemaRaises"
-        and case["switch"] == "on"
-        and case["arg_specs"] is None
-        and obs.get("outcome") == "raise"
-        and obs.get("type") == "AttributeError"
-        and "'NoneType' object has no attribute" in obs.get("msg", "")
-        and ("'items'" in obs.get("msg", "") or "'keys'" in obs.get("msg", ""))
-    ):
-        # SchemaRaises built without arg_specs (the documented default None): check_args dereferences self.arg_specs
-        return "C22:SchemaRaises.check_args:arg_specs-omitted"
+    """no defect of the current tree is recorded for C22 (the set-specification and the omitted-arg_specs defects are fixed
+    in /repo): every failing case is unclassified."""
     return "C22:unclassified:" + case_hash(case)
 
 
